@@ -6,13 +6,14 @@ out=["    // ------------------------------------------------------------------ 
 for t,mx in types:
     out.append(f'''    impl Encoding<{t}> for Bcd {{
         open spec fn enc_ok(v: &{t}) -> bool {{ true }}
+        open spec fn canon(v: &{t}) -> bool {{ true }}
         /// most significant digit first, two digits per byte, no leading zero byte
         open spec fn spec_enc(v: &{t}) -> Seq<u8> {{ bcd_rev(*v as nat).reverse() }}
         /// whole input is digits; a value that does not fit {t} is an error
         open spec fn spec_dec(b: Seq<u8>) -> Option<({t}, int)> {{
             match bcd_fold(b, b.len(), {mx}) {{ Some(v) => Some((v as {t}, b.len() as int)), None => None }}
         }}
-        open spec fn progresses() -> bool {{ true }}
+        open spec fn progresses() -> bool {{ false }}
         //@ fn exp:zvt_builder | impl Encoding<{t}> for Bcd | encode | mod=encoding all-loops
         //@ loop 0
                 invariant rv@ + bcd_rev(k as nat) =~= bcd_rev(*input as nat),
